@@ -61,6 +61,9 @@ impl Check for Constructor {
         context: &TypingContext,
         expected: &Ty,
     ) -> Result<Self, Error> {
+        // make sure the instance of the expected type exists before looking up its constructors
+        expected.check(&Some(self.span), symbol_table)?;
+
         let type_args = match expected {
             Ty::Decl { type_args, .. } => type_args,
             Ty::I64 { .. } => {
